@@ -99,6 +99,11 @@ pub trait Prop: Sync {
     fn workers(&self, _tier: Tier) -> usize {
         16
     }
+    /// If Some(k): every case runs inside a worker-private rayon pool with k threads (keeps the
+    /// library's own parallel sections from contending on the global pool).
+    fn rayon_threads(&self) -> Option<usize> {
+        None
+    }
     fn rule(&self) -> String;
     fn assumptions(&self) -> Vec<String> {
         Vec::new()
@@ -372,6 +377,7 @@ impl Engine {
                         max_global_rejects: 1 << 30,
                         ..Config::default()
                     };
+                    let pool = p.rayon_threads().map(|k| rayon::ThreadPoolBuilder::new().num_threads(k).build().expect("rayon pool"));
                     let mut runner = TestRunner::new(cfg);
                     let strat = proptest::collection::vec(any::<u32>(), (max_len / 3)..=max_len);
                     let failed = AtomicBool::new(false);
@@ -379,7 +385,10 @@ impl Engine {
                     let local_cell = std::cell::RefCell::new(&mut local);
                     let result = runner.run(&strat, |tape| {
                         let mut ev = CaseEv::default();
-                        let r = self.eval_tape(p, &tape, &mut ev);
+                        let r = match &pool {
+                            Some(pl) => pl.install(|| self.eval_tape(p, &tape, &mut ev)),
+                            None => self.eval_tape(p, &tape, &mut ev),
+                        };
                         let counting = !failed.load(Ordering::Relaxed);
                         match r {
                             Ok(_) => {
